@@ -234,8 +234,9 @@ func (b *Builder) Partial(n *Node, k int) (*jen.Statement, func()) {
 var NoCloneForm bool
 
 // cloneAt picks, as a function of the call chain alone, the call from which Stmt continues on a clone
-// (-1: not at all; one chain in three). Never between Case / Default and the Block that follows it:
-// adjacency in one statement is the documented trigger of the case-block format.
+// (-1: not at all; one chain in three). Never in a chain that holds Case / Default: a Block that follows
+// one of them in the same statement renders without braces (adjacency is the documented trigger), and a
+// clone boundary in between would change that.
 func cloneAt(calls []Call) int {
 	if len(calls) < 2 {
 		return -1
@@ -251,7 +252,9 @@ func cloneAt(calls []Call) int {
 		return -1
 	}
 	k := 1 + int(h/3)%(len(calls)-1)
-	if isCaseHead(&calls[k-1]) && strings.HasPrefix(calls[k].Fn, "Block") {
+	// (not only directly before the Block: calls that append nothing — Add() without items, a Do whose
+	// callback does the Case or the Block — may stand between the two)
+	if mentionsCase(calls) {
 		return -1
 	}
 	return k
@@ -297,6 +300,48 @@ func (b *Builder) applyAll(s *jen.Statement, calls []Call, from int) {
 	}
 }
 
+// mentionsCase: the chain, or the chain of a Do callback in it, holds a Case / Default.
+func mentionsCase(calls []Call) bool {
+	for i := range calls {
+		if isCaseHead(&calls[i]) {
+			return true
+		}
+		if calls[i].Fn == "Do" && len(calls[i].Items) > 0 && calls[i].Items[0] != nil && mentionsCase(calls[i].Items[0].Calls) {
+			return true
+		}
+	}
+	return false
+}
+
+// endsInCaseHead looks at the statement as it is: its last item is a Case group or the default keyword
+// (then a Block appended next renders as a case body). Read through reflection: the fields are unexported.
+func endsInCaseHead(s *jen.Statement) bool {
+	if s == nil || len(*s) == 0 {
+		return false
+	}
+	last := (*s)[len(*s)-1]
+	if last == nil {
+		return false
+	}
+	v := reflect.ValueOf(last)
+	if v.Kind() == reflect.Ptr {
+		if v.IsNil() {
+			return false
+		}
+		v = v.Elem()
+	}
+	if v.Kind() != reflect.Struct {
+		return false
+	}
+	if f := v.FieldByName("name"); f.IsValid() && f.Kind() == reflect.String {
+		return f.String() == "case"
+	}
+	if f := v.FieldByName("content"); f.IsValid() && f.Kind() == reflect.Interface && !f.IsNil() && f.Elem().Kind() == reflect.String {
+		return f.Elem().String() == "default"
+	}
+	return false
+}
+
 func isCaseHead(c *Call) bool {
 	return c != nil && (c.Fn == "Case" || c.Fn == "CaseFunc" || c.Fn == "Default")
 }
@@ -309,7 +354,9 @@ func (b *Builder) apply(s *jen.Statement, c *Call, prev, next *Call) {
 		// 0 method, 1 Add(function form), 2 method Func variant, 3 Add(function Func variant)
 		// The case-block format is triggered by a Block directly following Case / Default in the
 		// same statement: neither of the two may be wrapped into Add (documented adjacency).
-		canAdd := !(strings.HasPrefix(fn, "Block") && isCaseHead(prev)) && !(isCaseHead(c) && next != nil && strings.HasPrefix(next.Fn, "Block")) && fn != "Add" && fn != "Do"
+		// (a Case / Default is never wrapped at all: what follows it may be a Block further down the chain or
+		// inside a Do callback; and a Block is not wrapped when the statement, as it is now, ends in one)
+		canAdd := !(strings.HasPrefix(fn, "Block") && (isCaseHead(prev) || endsInCaseHead(s))) && !isCaseHead(c) && fn != "Add" && fn != "Do"
 		canFunc := HasFunc(fn)
 		opts := []int{0}
 		if canAdd {
